@@ -772,11 +772,20 @@ class BoboDistributedTCP(BoboDistributed,
         :return: Incoming Decider update information.
         """
         try:
-            return json.loads(msg_str, cls=_IncomingJSONDecoder)
+            incoming = json.loads(msg_str, cls=_IncomingJSONDecoder)
 
         except (BoboJSONableError, TypeError) as e:
             raise BoboDistributedSystemError(
                 "Failed to parse incoming JSON: {}".format(e))
+
+        # Must be an object with the three lists of runs that _update reads
+        if not isinstance(incoming, dict) or not all(
+                isinstance(incoming.get(key), list)
+                for key in (_KEY_COMPLETED, _KEY_HALTED, _KEY_UPDATED)):
+            raise BoboDistributedSystemError(
+                "Failed to parse incoming JSON: unexpected structure")
+
+        return incoming
 
     def _outgoing_to_json(
             self, msg: Dict[str, List[BoboRunSerial]]) -> str:
